@@ -32,7 +32,8 @@ RULE = (
     "junk / permutation, unit rewards (zeros, +-1, fractions) times a reward scale (0, 0.03..1000, relative to "
     "the bootstrap magnitude or absolute), a constructed termination pattern (mixed 86 %, none, all), gamma in "
     "{0, 0.5, 0.9, 0.99, 1} or (0,1), parameter scale 0.05..30 and the extras of each loss (alpha, min_priority, "
-    "clip range, reward scales, horizon, loss weights, environment_terminates, normalize_targets). Twin critics "
+    "clip range, reward scales, horizon, loss weights, environment_terminates, normalize_targets, the encoder's "
+    "encoder_activation_in_last_layer with and without normalize_targets). Twin critics "
     "are centred so that each is the minimum in some row; Huber deltas and clip bounds are placed at the median "
     "/ quartiles of the data (times 1, 0.7, 1.5, 1e-3, 1e3). Non-trivial = batch mixes terminated and "
     "non-terminated rows, the bootstrap term is >= 1% of the target scale and, where the loss has a branch "
@@ -52,7 +53,8 @@ ASSUMPTIONS = [
     "arbitrary finite junk for ignored successor data is bounded by 1e4 so that no network overflows to inf",
     "two-hot bins of the encoder loss span symexp(+-3) and rewards of that sub-check lie inside the bin range",
     "LayerNorm networks (MR.Q): tolerances are widened by 4x the movement of the reference under a 2^-21 relative "
-    "perturbation of all parameters and inputs (rounding amplification of near-constant LayerNorm inputs)",
+    "perturbation of all parameters and inputs (rounding amplification of near-constant LayerNorm inputs; largest "
+    "movement over 2 random sign patterns, over 8 once the 2-pattern estimate exceeds twice the plain tolerance)",
     "Huber gradients: tolerance widened when delta > 1e3 max|TD error| (the library's form back-propagates "
     "delta - delta + |e| in float32)",
     "SAC: the Gaussian policy's log-variance head is scaled so that std is O(1); with std ~ e^-8 the float32 "
@@ -414,14 +416,15 @@ def _compare_grads(ns, sub, label, g_lib, g_ref, slack=1.0, extra=None):
     return bad, gmax
 
 
-def _grad_conditioning(S, ns, g_ref):
+def _grad_conditioning(S, ns, g_ref, reps=2):
     """LayerNorm amplifies float32 rounding in the backward pass even more than in the forward pass
     when its input is nearly constant.  Re-evaluate the reference gradient with every parameter and
     float input perturbed by a relative 2^-21 (a few float32 ulps) and allow 4x the observed movement
-    per leaf.  Well-conditioned cases get ~1e-6 x scale, i.e. nothing."""
+    per leaf.  Well-conditioned cases get ~1e-6 x scale, i.e. nothing.  (``reps`` random sign patterns:
+    2, or COND_REPS for cases the forward estimate found ill-conditioned.)"""
     base = ns.leaves(g_ref)
     extra = {k: 0.0 for k in base}
-    for rep in range(2):
+    for rep in range(reps):
         r = np.random.default_rng((int(S.case["pseed"]), 778, rep))
         mods = S.make_mods()
         for m in mods:
@@ -449,14 +452,24 @@ def _huber_slack(delta, errors):
     return max(1.0, 1e-3 * float(delta) / max(_mag(errors), 1e-30))
 
 
-def _conditioning(S, ref):
+COND_REPS = 8       # perturbation patterns for cases whose two-pattern estimate is above COND_RETRY
+COND_RETRY = 2.0    # in units of the plain tolerance (1e-5 x scale)
+
+
+def _conditioning(S, ref, first=0, reps=2):
     """Extra absolute tolerance per output for setups with LayerNorm (which amplifies float32 rounding
     without bound when its input is nearly constant): re-evaluate the float64 reference with every
     parameter and float input perturbed by a relative 2^-21 (a few float32 ulps) and allow 4x the
-    observed movement.  Well-conditioned cases get ~1e-6 x scale, i.e. nothing."""
+    observed movement.  Well-conditioned cases get ~1e-6 x scale, i.e. nothing.
+
+    The movement under ONE random sign pattern can be far below the typical one (witness
+    replays/regress/C03_encoder_falsealarm_conditioning_two_patterns.json: reward_loss 39.14 moved by 0.005
+    under each of the patterns 0 and 1, by 0.003 .. 0.14 under the next six; the jit-compiled library loss
+    differs from the reference by 0.055 and from its own eager evaluation by 0.009): a case whose two-pattern estimate already exceeds COND_RETRY x
+    the plain tolerance is re-estimated with COND_REPS patterns (run_engine)."""
     ns = L()
     extra = {k: 0.0 for k in ref}
-    for rep in range(2):
+    for rep in range(first, first + reps):
         r = np.random.default_rng((int(S.case["pseed"]), 777, rep))
         mods = S.make_mods()
         for m in mods:
@@ -485,9 +498,15 @@ def run_engine(S, case):
     ref, info = S.reference(mods)
     labels += info.get("labels", [])
     extra_tol = {k: 0.0 for k in ref}
+    grad_reps = 2
     if getattr(S, "conditioning", False):
         extra_tol = _conditioning(S, ref)
         cond = max([1.0] + [extra_tol[k] / (1e-5 * ref[k][1]) for k in ref])
+        if cond > COND_RETRY:
+            more = _conditioning(S, ref, first=2, reps=COND_REPS - 2)
+            extra_tol = {k: max(extra_tol[k], more[k]) for k in ref}
+            cond = max([1.0] + [extra_tol[k] / (1e-5 * ref[k][1]) for k in ref])
+            grad_reps = COND_REPS
         info["grad_slack"] = info.get("grad_slack", 1.0) * cond
         labels.append("ill-conditioned" if cond > 10 else "well-conditioned")
     info["extra_tol"] = extra_tol
@@ -535,7 +554,7 @@ def run_engine(S, case):
         check(bool(np.all(g == 0)), f"{sub}.zero_grad.{name}", lambda: f"max |grad| {_mag(g):.4g}")
     if not info.get("skip_value"):
         g_ref = ns.jit_obj(S.obj)(mods[S.trained], S.consts(info), S.obj_static)
-        extra_g = _grad_conditioning(S, ns, g_ref) if getattr(S, "conditioning", False) else None
+        extra_g = _grad_conditioning(S, ns, g_ref, grad_reps) if getattr(S, "conditioning", False) else None
         bad, gmax = _compare_grads(ns, sub, "trained", gm[S.trained], g_ref, info.get("grad_slack", 1.0), extra_g)
         if bad:
             altg = getattr(S, "classify_grad", None)
@@ -1578,6 +1597,15 @@ def _encoder(ns, cfg, case, seed, nb=5):
     return ns.reinit(enc, seed, case["pscale"])
 
 
+def _encode_zs_doc(ns, enc, obs, case):
+    """The latent state as ModelBasedEncoder documents it, composed from the encoder's documented parts (not
+    through ``encode_zs``): the state encoder ``zs``, the layer normalisation ``zs_layer_norm`` of the latent
+    state and, for an encoder built with ``encoder_activation_in_last_layer=True``, the activation function
+    after it (float32 forward passes of the sub-modules, like every other reference input)."""
+    z = enc.zs_layer_norm(enc.zs(obs))
+    return getattr(ns.nnx, case["act"])(z) if case.get("act_last", False) else z
+
+
 class MRQSetup(Setup):
     name = call = "mrq"
     obj = "mrq"
@@ -1640,9 +1668,10 @@ class MRQSetup(Setup):
     def _forward(self, mods):
         a = self.farrs
         q, qt, enc, enct = mods
-        nzs = enct.encode_zs(a["next_observation"])
+        ns = L()
+        nzs = _encode_zs_doc(ns, enct, a["next_observation"], self.case)
         nzsa = enct.encode_zsa(nzs, a["next_action"])
-        zs = enc.encode_zs(a["observation"])
+        zs = _encode_zs_doc(ns, enc, a["observation"], self.case)
         zsa = enc.encode_zsa(zs, a["action"])
         return {"zs": F(zs), "zsa": np.asarray(zsa), "t1": F(qt.q1(nzsa))[:, 0], "t2": F(qt.q2(nzsa))[:, 0],
                 "p1": F(q.q1(zsa))[:, 0], "p2": F(q.q2(zsa))[:, 0]}
@@ -1691,6 +1720,7 @@ class MRQSetup(Setup):
         early = bool(np.any(self.first < h - 1))
         labels.append("terminated-before-last-step" if early else "no-early-termination")
         labels.append("h=%d" % h)
+        labels.append("activation-after-last-encoder-layer" if self.case.get("act_last") else "no-activation-after-last-encoder-layer")
         labels.append("reward-scales-differ" if self.rs != self.trs else "reward-scales-equal")
         nt, labs = _bootstrap_nt(1 - self.live.astype(int), bterm, y)
         info = {"y": y, "zsa": fw["zsa"], "labels": labels + labs,
@@ -1737,6 +1767,10 @@ ENC_POOL = [
      "act_last": False, "normalize": True},
     {"n": 1, "h": 3, "do": 2, "da": 1, "nb": 5, "zs": 3, "za": 2, "zsa": 4, "hidden": [4], "act": "elu",
      "act_last": False, "normalize": True, "w": 0.3},
+    # encoder_activation_in_last_layer together with normalize_targets: the target encode_zs(o') then carries the
+    # activation after the layer norm
+    {"n": 5, "h": 2, "do": 2, "da": 1, "nb": 5, "zs": 3, "za": 2, "zsa": 4, "hidden": [4], "act": "elu",
+     "act_last": True, "normalize": True},
 ]
 ENC_EXTRA = [
     {"n": 2, "h": 5, "do": 1, "da": 1, "nb": 3, "zs": 2, "za": 1, "zsa": 2, "hidden": [4]},
@@ -1824,7 +1858,9 @@ class EncoderSetup(Setup):
         n, h = self.n, self.h
         term = F(iarrs["terminated"])
         no = farrs["next_observation"].reshape(n * h, -1)
-        tz = enct.encode_zs(no) if self.case["normalize_targets"] else enct.zs(no)
+        # documented target: the (gradient-stopped) latent state encode_zs(o') of the target encoder -- layer norm
+        # and, if the encoder was built with it, the last-layer activation -- when normalize_targets, zs(o') otherwise
+        tz = _encode_zs_doc(L(), enct, no, self.case) if self.case["normalize_targets"] else enct.zs(no)
         target_zs = F(tz).reshape(n, h, -1)
         b = F(self.bins)
         zs = enc.encode_zs(farrs["observation"][:, 0])
@@ -1885,8 +1921,17 @@ class EncoderSetup(Setup):
         h = self.h
         early = self.first < h - 1          # a masked step exists in these rows
         full = self.first == h
+        act_last = bool(self.case.get("act_last", False))
         labels = ["h=%d" % h, "normalize_targets" if self.case["normalize_targets"] else "raw_targets",
+                  "activation-after-last-encoder-layer" if act_last else "no-activation-after-last-encoder-layer",
                   "env-terminates" if self.env_term else "env-never-terminates"]
+        if act_last and self.case["normalize_targets"]:
+            # the only configuration in which the normalised target is more than the layer norm of zs(o')
+            enct = mods[1]
+            moved = _mag(F(enct.zs_layer_norm(enct.zs(self.farrs["next_observation"].reshape(self.n * h, -1))))
+                         - target_zs.reshape(self.n * h, -1))
+            labels.append("target-activation-matters" if moved > 1e-3 * max(_mag(target_zs), 1e-30)
+                          else "target-activation-is-identity-here")
         mixed = bool(early.any() and full.any())
         labels.append("mask-mixed" if mixed else ("mask-all-ones" if not early.any() else "mask-no-full-row"))
         done_active = self.env_term and self.w["done_weight"] > 0
